@@ -731,9 +731,11 @@ class XsdAttributeGroup(
                     pass
                 elif None in self._attribute_group and \
                         self._attribute_group[None].is_matching(name):
-                    # A prohibited use is not an attribute use: the wildcard governs
-                    xsd_attribute = self._attribute_group[None]
-                    value = (name, value)
+                    if self.base_attributes is None or name not in self.base_attributes:
+                        # A prohibited use is not an attribute use: the wildcard governs
+                        xsd_attribute = self._attribute_group[None]
+                        value = (name, value)
+                    # else: a restriction of a declared attribute still narrows its type
                 else:
                     reason = _("use of attribute %r is prohibited") % name
                     context.validation_error(validation, self, reason, obj)
@@ -801,9 +803,11 @@ class XsdAttributeGroup(
                     pass
                 elif None in self._attribute_group and \
                         self._attribute_group[None].is_matching(name):
-                    # A prohibited use is not an attribute use: the wildcard governs
-                    xsd_attribute = self._attribute_group[None]
-                    value = (name, value)
+                    if self.base_attributes is None or name not in self.base_attributes:
+                        # A prohibited use is not an attribute use: the wildcard governs
+                        xsd_attribute = self._attribute_group[None]
+                        value = (name, value)
+                    # else: a restriction of a declared attribute still narrows its type
                 else:
                     reason = _("use of attribute %r is prohibited") % name
                     context.validation_error(validation, self, reason, obj)
